@@ -3,6 +3,7 @@ package props
 import (
 	"bytes"
 	"encoding/hex"
+	"errors"
 	"fmt"
 	"math"
 	"math/rand"
@@ -10,8 +11,11 @@ import (
 	"sort"
 
 	"github.com/elastos/Elastos.ELA/account"
+	"github.com/elastos/Elastos.ELA/blockchain"
 	"github.com/elastos/Elastos.ELA/common"
 	"github.com/elastos/Elastos.ELA/common/config"
+	"github.com/elastos/Elastos.ELA/core"
+	"github.com/elastos/Elastos.ELA/core/contract"
 	common2 "github.com/elastos/Elastos.ELA/core/types/common"
 	"github.com/elastos/Elastos.ELA/core/types/interfaces"
 	"github.com/elastos/Elastos.ELA/core/types/outputpayload"
@@ -85,6 +89,22 @@ func init() {
 		return nil
 	}
 	c34Resources = c34ResourceModel
+	// pow-era shards: small cross-chain transfers (payload v1) are valid from the start of the history
+	c34Tweaks = append(c34Tweaks, func(shard int) func(o *node.Options) {
+		return func(o *node.Options) {
+			if c34EnvOf(shard) != nil {
+				return
+			}
+			prev := o.Tweak
+			o.Tweak = func(cfg *config.Configuration) {
+				if prev != nil {
+					prev(cfg)
+				}
+				cfg.NewCrossChainStartHeight = 5
+			}
+		}
+	})
+	c34Sources = append(c34Sources, c34SrcStoreFault)
 	c34Sources = append(c34Sources, c34SrcChainSpend, c34SrcProducers, c34SrcCRs, c34SrcProposals, c34SrcClaimNode, c34SrcStake)
 }
 
@@ -292,6 +312,114 @@ func c34PoolSorted(nd *node.Node) []interfaces.Transaction {
 	txs := nd.TxPool.GetTxsInPool()
 	sort.Slice(txs, func(i, j int) bool { a, b := txs[i].Hash(), txs[j].Hash(); return a.Compare(b) < 0 })
 	return txs
+}
+
+// ---------- fault family: the chain store fails while a small cross-chain transfer is admitted ----------
+
+// c34FaultStore decorates the node's chain store (blockchain.DefaultLedger.Store
+// is an interface field): SaveSmallCrossTransferTx fails when armed, everything
+// else goes to the real store.
+type c34FaultStore struct {
+	blockchain.IChainStore
+	c     *kit.Ctx
+	armed bool
+}
+
+func (f *c34FaultStore) SaveSmallCrossTransferTx(tx interfaces.Transaction) error {
+	if f.armed {
+		f.armed = false
+		f.c.Inc("store_fault_submissions")
+		return errors.New("verif: injected store failure (SaveSmallCrossTransferTx)")
+	}
+	f.c.Inc("small_cross_transfers_saved")
+	return f.IChainStore.SaveSmallCrossTransferTx(tx)
+}
+
+// The pool persists small TransferCrossChainAsset transactions (amount below
+// SmallCrossTransferThreshold, above NewCrossChainStartHeight) while admitting
+// them. The source submits such transfers while that store write fails (drawn
+// per submission from the shard's stream), resubmits the same transaction
+// after the fault has cleared, and also submits fault-free ones. Whatever the
+// pool does with the failed transaction (keep or drop), its indexes must agree:
+// the ordinary invariant check runs after each of these steps.
+func c34SrcStoreFault() *c34Source {
+	var k *c34K
+	var fs *c34FaultStore
+	var faulted interfaces.Transaction // submitted under a fault, not yet resubmitted
+	stage := ""
+	accts := []int{2, 3, 4, 5, 6}
+	xAddr := func(n int) common.Uint168 {
+		h := common.Hash([]byte(fmt.Sprintf("verif-side-chain-%d", n)))
+		var u common.Uint168
+		u[0] = byte(contract.PrefixCrossChain)
+		copy(u[1:], h[:20])
+		return u
+	}
+	return &c34Source{Name: "store-fault", Envs: []string{"", "committee", "dposv2"}, Weight: 2,
+		Setup: func(c *kit.Ctx, nd *node.Node, r *rand.Rand) error {
+			k = c34Kit(c, nd)
+			if nd.Height() <= nd.Cfg.NewCrossChainStartHeight {
+				return fmt.Errorf("height %d is not above NewCrossChainStartHeight %d", nd.Height(), nd.Cfg.NewCrossChainStartHeight)
+			}
+			fs = &c34FaultStore{IChainStore: blockchain.DefaultLedger.Store, c: c}
+			blockchain.DefaultLedger.Store = fs
+			c34AfterInvariants = func(c *kit.Ctx, kind, outcome string) {
+				if kind != "source:store-fault" {
+					return
+				}
+				switch stage {
+				case "fault":
+					if fs.armed { // the submission never reached the store (refused earlier, e.g. capacity)
+						fs.armed = false
+						faulted = nil
+						c.Inc("store_fault_not_reached")
+					} else {
+						c.Inc("invariants_checked_after_store_fault")
+						c.Inc("store_fault_submission_outcome:" + outcome)
+					}
+				case "resubmit":
+					c.Inc("invariants_checked_after_store_fault_resubmission")
+					c.Inc("store_fault_resubmission_outcome:" + outcome)
+				}
+				stage = ""
+			}
+			return nil
+		},
+		Next: func(c *kit.Ctx, nd *node.Node, r *rand.Rand) interfaces.Transaction {
+			k.reclaim()
+			stage = ""
+			if faulted != nil {
+				tx := faulted
+				faulted = nil
+				stage = "resubmit"
+				c.Inc("store_fault_then_resubmitted")
+				if nd.TxPool.HaveTransaction(tx.Hash()) {
+					c.Inc("store_fault_resubmitted_while_still_pooled")
+				}
+				return tx
+			}
+			a := node.Key(accts[r.Intn(len(accts))])
+			in, ok := k.take(a, node.ELA(2))
+			if !ok {
+				return nil
+			}
+			amt := common.Fixed64(20000000 + r.Intn(70000000)) // 0.2 .. 0.9 ELA: below SmallCrossTransferThreshold (1 ELA)
+			out := &common2.Output{AssetID: core.ELAAssetID, Value: amt, ProgramHash: xAddr(r.Intn(3)), Type: common2.OTCrossChain,
+				Payload: &outputpayload.CrossChainOutput{Version: 0, TargetAddress: a.Address, TargetAmount: amt - nd.Cfg.MinCrossChainTxFee}}
+			tx := node.BuildTx(node.TxSpec{Type: common2.TransferCrossChainAsset, PayloadVersion: payload.TransferCrossChainVersionV1,
+				Payload: &payload.TransferCrossChainAsset{}, Ins: []node.UTXORef{in}, Outs: []*common2.Output{out},
+				Fee: common.Fixed64(10000 + r.Intn(50000))})
+			k.track(tx, in)
+			if r.Intn(3) != 0 {
+				fs.armed = true
+				faulted = tx
+				stage = "fault"
+				c.Inc("gen:small-cross-transfer-under-store-fault")
+			} else {
+				c.Inc("gen:small-cross-transfer")
+			}
+			return tx
+		}}
 }
 
 // ---------- source: spends of recently confirmed outputs (every environment) ----------
